@@ -163,9 +163,13 @@ fn translate_position(input: &[u8], index: usize) -> (usize, usize) {
     };
     let line = input[0..line_start].iter().filter(|b| **b == b'\n').count();
 
-    let column = std::str::from_utf8(&input[line_start..=index])
-        .map(|s| s.chars().count() - 1)
-        .unwrap_or_else(|_| index - line_start);
+    let column = match std::str::from_utf8(&input[line_start..=index]) {
+        Ok(s) => s.chars().count() - 1,
+        // `index` is inside a multi-byte character: count the characters before it
+        Err(err) => std::str::from_utf8(&input[line_start..line_start + err.valid_up_to()])
+            .map(|s| s.chars().count())
+            .unwrap_or_else(|_| index - line_start),
+    };
     let column = column + column_offset;
 
     (line, column)
